@@ -386,6 +386,88 @@ def gen_shape_trees(rng, n_extra, chk=None):
     return out
 
 
+EXT_CLASSES = ['star-ext', 'name', 'dir-slash', 'inner-slash', 'anchored', 'negation']
+META_PAIRS = [('d[1]', 'd1'), ('{a}', 'a'), ('q?', 'q1'), ('st*r', 'star'), ('b\\c', 'bc'), ('d[1]{a}', 'd1a'), ('!x]', 'x')]
+
+
+def ext_line(cls):
+    """(line of the ignore file, entries below a directory that the line is about, root line)"""
+    return {'star-ext': ('*.tmp', [('F', 'x.tmp'), ('D', 'sub'), ('F', 'sub/y.tmp'), ('F', 'keep.bin')], None),
+            'name': ('x.tmp', [('F', 'x.tmp'), ('D', 'sub'), ('F', 'sub/x.tmp'), ('F', 'keep.bin')], None),
+            'dir-slash': ('deep/', [('D', 'deep'), ('F', 'deep/z.tmp'), ('F', 'keep.bin')], None),
+            'inner-slash': ('sub/y.tmp', [('D', 'sub'), ('F', 'sub/y.tmp'), ('F', 'keep.bin')], None),
+            'anchored': ('/x.tmp', [('F', 'x.tmp'), ('D', 'sub'), ('F', 'sub/x.tmp')], None),
+            'negation': ('!x.tmp', [('F', 'x.tmp'), ('F', 'o.tmp'), ('D', 'sub'), ('F', 'sub/x.tmp')], '*.tmp')}[cls]
+
+
+def populate(ents, d, below):
+    for k, q in below:
+        e = (k, d + '/' + q)
+        if e not in ents: ents.append(e)
+
+
+def gen_ext_tree(rng, cls, nested, chk=None):
+    """siblings whose NAME EXTENDS the name of a directory that has an ignore file: data/ + data2/, data-old/, data.tmp, datax.tmp
+    (nested: a/b/ + a/b2/, a/bc.tmp …), every sibling holding the entries the line of data/'s ignore file is about"""
+    base, par = ('b', 'a') if nested else ('data', '')
+    here = par + '/' if par else ''
+    D = here + base
+    line, below, root_line = ext_line(cls)
+    ents = ([('D', par)] if par else []) + [('D', D)]
+    populate(ents, D, below)
+    for sib in (base + '2', base + '-old', base + 'c'):
+        ents.append(('D', here + sib)); populate(ents, here + sib, below)
+    ents += [('F', here + base + '.tmp'), ('F', here + base + 'x.tmp'), ('F', here + base + 'c.tmp'), ('D', here + 'other'), ('D', here + 'other/' + base)]
+    populate(ents, here + 'other/' + base, below)
+    extra = gen_line(rng, [], []) if rng.random() < 0.3 else None
+    lines = [line] + ([extra] if extra and not extra.startswith('!') else [])
+    ents += [('F', D + '/' + IGN), ('I', D, '\n'.join(lines) + '\n')]
+    if root_line: ents += [('F', IGN), ('I', '', root_line + '\n')]
+    if chk: chk.count(f'ext:{"nested" if nested else "flat"}:{cls}')
+    return ents
+
+
+def seed4_scenario():
+    """the demo tree of seeded change C09-4"""
+    return [('D', 'data'), ('D', 'data/sub'), ('D', 'data2'), ('D', 'data2/deep'), ('D', 'data2/deep/er'), ('D', 'other'), ('D', 'other/data'),
+            ('F', 'data/x.tmp'), ('F', 'data/sub/y.tmp'), ('F', 'data/keep.bin'), ('F', 'data2/x.tmp'), ('F', 'data2/deep/er/z.tmp'),
+            ('F', 'data2/keep.bin'), ('F', 'data.tmp'), ('F', 'datax.tmp'), ('F', 'other/data/w.tmp'), ('F', 'data/' + IGN), ('I', 'data', '*.tmp\n')]
+
+
+def gen_meta_tree(rng, pair, cls, nested, chk=None):
+    """a directory whose NAME contains glob metacharacters has an ignore file; next to it the directory the un-escaped name
+    would match as a glob (d[1] + d1, {a} + a, q? + q1, st*r + star …); both hold the entries the line is about"""
+    meta, plain = pair
+    here = 'p/' if nested else ''
+    line, below, root_line = ext_line(cls)
+    ents = ([('D', 'p')] if nested else []) + [('D', here + meta), ('D', here + plain)]
+    populate(ents, here + meta, below); populate(ents, here + plain, below)
+    if rng.random() < 0.5:                                   # a second level with a metacharacter name and its own rule
+        m2, p2 = rng.choice(META_PAIRS)
+        for top in (here + meta, here + plain):
+            for n2 in (m2, p2):
+                ents.append(('D', top + '/' + n2)); populate(ents, top + '/' + n2, below)
+        ents += [('F', here + meta + '/' + m2 + '/' + IGN), ('I', here + meta + '/' + m2, 'keep.bin\n')]
+    ents += [('F', here + meta + '/' + IGN), ('I', here + meta, line + '\n')]
+    if root_line: ents += [('F', IGN), ('I', '', root_line + '\n')]
+    seen, out = set(), []
+    for e in ents:
+        if (e[0] == 'I', e[1]) in seen: continue
+        seen.add((e[0] == 'I', e[1])); out.append(e)
+    if chk: chk.count(f'meta:{meta}:{cls}' + (':nested' if nested else ''))
+    return out
+
+
+def f32_scenario():
+    """repair F32: `d[1]/.xvcignore` must act below d[1]/ (not below the sibling d1/), `{a}/.xvcignore` below {a}/ (not a/)"""
+    return [('D', 'd[1]'), ('D', 'd1'), ('D', '{a}'), ('D', 'a'), ('F', 'd[1]/x.tmp'), ('F', 'd[1]/keep.bin'), ('F', 'd1/x.tmp'), ('F', 'd1/keep.bin'),
+            ('F', '{a}/y.tmp'), ('F', 'a/y.tmp'), ('F', 'd[1]/' + IGN), ('I', 'd[1]', '*.tmp\n'), ('F', '{a}/' + IGN), ('I', '{a}', 'y.tmp\n')]
+
+
+def has_meta(path):
+    return any(ch in path for ch in '[]{}*?!\\')
+
+
 def enc_tree(ents):
     out = []
     for e in ents:
@@ -503,6 +585,13 @@ class Procs:
         os.makedirs(self.sdir, exist_ok=True)
 
     def both(self, lines, want_model=True):
+        if self.impl is None:                   # no in-process harness: model answers only
+            ans_m = [None] * len(lines)
+            if want_model and self.model:
+                rc2, ans_m, err_m = run_lines(self.model, [], lines, timeout=3000)
+                if rc2 != 0:
+                    raise RuntimeError(f'ignoremodel rc={rc2}: {err_m[-800:]}')
+            return [None] * len(lines), ans_m, [[] for _ in lines]
         rc1, out_i, err_i = run_lines(self.impl, [self.sdir], lines, timeout=3000)
         if rc1 != 0:
             raise RuntimeError(f'walker_harness rc={rc1}: {err_i[-800:]}')
@@ -686,6 +775,8 @@ def shrink_tree(ents, fails, max_steps=150):
 
 
 CORPUS = [
+    f32_scenario(),        # repair F32: directory names with glob metacharacters are literals; runs first
+    seed4_scenario(),      # C09-4: siblings whose name extends the name of the directory with the ignore file
     seed3_scenario(),      # C09-3: data/.xvcignore is a symbolic link to ../shared/r1.rules; runs first
     seed2_scenario(),      # C09-2: 59 patterns, paths matched by `*.dat` and by a `!keep-N.dat`; runs first, 25+ parallel walks / 24 listings
     # F8: a name-only line in a nested ignore file must not act outside its directory (symmetric: whichever of a/ b/ is visited first)
@@ -720,7 +811,13 @@ def hook_available():
 
 def build_harness(chk):
     """the shared build, then (when xvc-walker has the `verif` feature) a second build with the schedule hook"""
-    bindir = chk.build_harness(['walker_harness'])
+    bindir = None if os.environ.get('VERIF_C09_NO_HARNESS') else chk.build_harness(['walker_harness'], fatal=False)
+    if bindir is None:
+        if os.environ.get('VERIF_C09_NO_HARNESS'):      # test switch: behave as if the in-process harness did not compile
+            chk.proof['broken'].append({'stage': 'build', 'errors': ['harness build failed (simulated by VERIF_C09_NO_HARNESS)'], 'log_tail': ''})
+        chk.notes.append('the in-process harness could not be built: the in-process tie is recorded as broken, the search for a failing input '
+                         'goes on with the streams that only need the xvc binary')
+        return None, hook_available()
     if not hook_available():
         return os.path.join(bindir, 'walker_harness'), False
     hdir = os.path.dirname(os.path.dirname(bindir)) if REPO != '/repo' else os.path.join(VERIF, 'harness')
@@ -812,7 +909,7 @@ def plain_listing(chk, xvc, ents, name):
         sb.cleanup()
 
 
-def binary_case(chk, pr, xvc, ents, idx, reps, hooked):
+def binary_case(chk, pr, xvc, ents, idx, reps, hooked, confine=False):
     """`xvc file list`, `xvc file track dir/`, `xvc check-ignore` on a scratch repository; returns (oracle msgs, tie msgs)"""
     is_ign = lambda q: q == IGN or q.endswith('/' + IGN)
     ents = [e for e in ents if (e[0] != 'L' or is_ign(e[1])) and not any(s in ('.xvc', '.git') for s in e[1].split('/'))]
@@ -851,6 +948,24 @@ def binary_case(chk, pr, xvc, ents, idx, reps, hooked):
                 msgs.append('`xvc file list` shows paths inside .xvc/.git')
             if expect is not None and outs[0] != expect:
                 tie.append(('file-list', outs[0], expect))
+        # confinement (second repository without the ignore file of D): only paths below D may be listed / judged differently
+        if outs and confine:
+            cand0 = sorted(e[1] for e in ents if e[0] == 'F' and not e[1].endswith(IGN))[:10]
+            mine = None
+            for d in [e[1] for e in ents if e[0] == 'I' and e[1]][:2]:
+                tl, tci = plain_listing(chk, xvc, without_ignore(ents, d), f'bin{idx}conf')
+                chk.count('binary:confinement-twin')
+                if tl is None: continue
+                changed = sorted(f for f in set(tl) ^ set(outs[0]) if not under(d, '/' + f))
+                if changed:
+                    msgs.append(f'confinement: removing {d}/{IGN} changes whether `xvc file list` considers {changed}, which are not below {d}/')
+                if mine is None and cand0:
+                    rc, out, err = sb.x('check-ignore', *cand0)
+                    mine = sorted(l.replace(sb.root, '') for l in out.split('\n') if l.startswith('['))
+                if mine is not None and tci is not None:
+                    ch = sorted(l for l in set(mine) ^ set(tci) if not under(d, l.split('] ', 1)[-1]))
+                    if ch:
+                        msgs.append(f'confinement: removing {d}/{IGN} changes the `xvc check-ignore` answer for paths that are not below {d}/: {ch}')
         # the same rules as regular files (second repository): same listing, same check-ignore answers
         if outs and has_shapes(ents):
             twin, only = regular_twin(ents)
@@ -894,7 +1009,7 @@ def binary_case(chk, pr, xvc, ents, idx, reps, hooked):
             for p, y in zip(cand, cm):
                 if y is not None and got.get(p) != y: tie.append(('xvc check-ignore ' + p, got.get(p), y))
         # track one directory: recorded paths = the walk below it
-        dirs = sorted(e[1] for e in ents if e[0] == 'D' and '/' not in e[1])
+        dirs = sorted(e[1] for e in ents if e[0] == 'D' and '/' not in e[1] and not has_meta(e[1]))     # `track <dir>/` takes a glob: plain names only
         if dirs:
             d = dirs[idx % len(dirs)]
             env = {'XVC_VERIF_SCHED': f'{chk.seed + idx}:200'} if hooked else None
@@ -920,7 +1035,8 @@ def run(chk: Check):
     quick = chk.tier == 'quick'
     ignore_extract.run(chk)
     model = chk.lean('XvcIgnore', 'XvcIgnore.Props.C09', exe='ignoremodel',
-                     extra_modules=['XvcIgnore.Glob', 'XvcIgnore.Pattern', 'XvcIgnore.Walk', 'XvcIgnore.Lemmas', 'XvcIgnore.WalkLemmas', 'XvcIgnore.PStep'])
+                     extra_modules=['XvcIgnore.Glob', 'XvcIgnore.Pattern', 'XvcIgnore.Walk', 'XvcIgnore.Lemmas', 'XvcIgnore.WalkLemmas', 'XvcIgnore.PStep'],
+                     build_targets=['XvcIgnore.Props.C09'])     # the package is shared with C16: build this check's modules only
     impl, hooked = build_harness(chk)
     xvc = build_xvc(chk, hooked)
     if not os.path.exists(model):
@@ -936,128 +1052,148 @@ def run(chk: Check):
     ]
     chk.assumptions += [
         'the threads of walk_parallel / the loop of walk_serial are modelled by the transition system PStep (PStep.lean) at the granularity of the code\'s RwLock: update_ignore_rules(dir) is one atomic append that precedes the checks of dir\'s children (program order in walk_parallel_inner / walk_serial), each check is atomic, a directory is queued only after its own check; any pending directory and any unchecked child may be taken next (C09_every_schedule). `walkWith extra` (C09_parallel_deterministic) is the same statement with the interference as an explicit parameter',
-        'TreeOk / PlainDir: entry names are non-empty, contain no / (true of every file system) and none of * ? [ \\ — Pattern::new does not escape the directory it prefixes to a glob, so a directory called `*` would un-confine the patterns of its ignore file (not generated; stated as hypothesis of the theorems)',
+        'TreeOk: entry names are non-empty and contain no / (true of every file system); names may contain glob metacharacters — the directory part of a glob is escaped (repair F32, C09_escape_literal) — and such names are generated',
         'C09_never_enters_xvc_git assumes no whitelist line matches an entry called .xvc/.git (SafeWhite); the excluded region is the proved C09_whitelist_escape_counterexample and is replayed on the implementation',
         'ignore files and names are ASCII in the correspondence streams',
     ]
     chk.extra['schedule_hook'] = hooked
-    chk.extra['model_mirrors'] = 'the code with the F8 repair (patches/C09-F8.patch): Anywhere-patterns of non-root ignore files get the glob <dir>/**/<line>'
+    chk.extra['model_mirrors'] = 'the code with the F8 repair (patches/C09-F8.patch) and the F32 repair (patches/F32-ignore-directory-literal.patch): globs of non-root ignore files are <escaped dir>/**/<line>'
 
-    # ---- S3a constants
-    consts = ['common', 'xvcignore', 'gitignore']
-    stream_simple(chk, pr, 'const', consts, lambda c: 'const\t' + c, lambda c, x: True)
-
-    # ---- S3b glob / pattern / content / check streams
-    n_glob = 3000 if quick else 60000
-    n_pat = 2000 if quick else 40000
-    n_content = 400 if quick else 6000
-    n_check = 1500 if quick else 30000
     rng = chk.rng
-    globs = [gen_glob_case(rng, chk) for _ in range(n_glob)]
-    # fixed shape table from DESIGN.md section 7 and the repository's own unit tests
-    globs += [('**/x', '/x'), ('**/x', '/b/x'), ('/a/**/x', '/ab/x'), ('/a/**/x', '/a/x'), ('**/d/**', '/d/f'), ('**/d/**', '/d/'), ('**/d/**', '/d'),
-              ('/**/dir-0001/*', '/dir-0001/file-0001.bin'), ('/**/dir-00**/*/*.bin', '/dir-0001/file-0002.bin'), ('**/dir-00**/**', '/dir-0001/file-0002.bin'),
-              ('/dir-0002/**/**', '/dir-0001/file-0001.bin'), ('/dir-0001/**/**/*.bin', '/dir-0001/file-0001.bin'), ('**/.xvc', '/a/.xvc'), ('**/.git', '/.git')]
-    st = stream_simple(chk, pr, 'glob', globs, lambda c: f'glob\t{hx(c[0])}\t{hx(c[1])}', lambda c, x: x == '1')
-    srcs = ['G', 'F', 'F' + hx('a'), 'F' + hx('a/b'), 'F' + hx('sub'), 'F' + hx('data/x/c')]
-    pats = [(rng.choice(srcs), gen_line(rng, [], [], chk)) for _ in range(n_pat)]
-    pats += [(s, l) for s in srcs for l in ['myfile', '/myfile', 'myfile/', 'mydir/myfile', '/my/file.*', '/mydir/**.*', '!mydir/*/file', '!myfile/', '/', '//', 'a//', '**/', '!', '\\!x', 'x \\ ', ' x']]
-    stream_simple(chk, pr, 'pattern', pats, lambda c: f'pat\t{c[0]}\t{hx(c[1])}', lambda c, x: 'white=1' in x or 'dir=1' in x or 'some:' in x)
-    contents = [(rng.choice(srcs), gen_content(rng, [], [])) for _ in range(n_content)]
-    stream_simple(chk, pr, 'content', contents, lambda c: f'content\t{c[0]}\t{hx(c[1])}', lambda c, x: x.count(':') >= 2)
-    checks = []
-    for _ in range(n_check):
-        k = rng.randint(1, 6)
-        rules = [(rng.choice(srcs), gen_line(rng, [], [])) for _ in range(k)]
-        segs = [rng.choice(DIR_NAMES) for _ in range(rng.randint(0, 3))] + [rng.choice(FILE_NAMES + DIR_NAMES)]
-        checks.append(('/' + '/'.join(segs), rules))
-    stream_simple(chk, pr, 'check', checks, lambda c: 'check\t' + hx(c[0]) + ''.join(f'\t{s}\t{hx(l)}' for s, l in c[1]),
-                  lambda c, x: x != 'nomatch')
-    # rule sets built as the walkers build them (one add_patterns/merge_with per ignore file), the same line in several files;
-    # independent oracle: the verdict does not depend on the order in which the files were loaded
-    merged = gen_merged_checks(rng, 150 if quick else 3000, chk)
-    mk = lambda c: 'checkm\t' + hx(c[0]) + ''.join(f'\t{s2}\t{hx(l)}' for s2, l in c[1])
-    stream_simple(chk, pr, 'check-merged', merged, mk, lambda c, x: x != 'nomatch')
-    def by_file_reversed(rules):
-        groups = []
-        for r in rules:
-            if groups and groups[-1][0][0] == r[0]: groups[-1].append(r)
-            else: groups.append([r])
-        return [r for g in reversed(groups) for r in g]
-    rev = [(pth, by_file_reversed(rules)) for pth, rules in merged]
-    a_fwd, _ = pr.impl_only([mk(c) for c in merged])
-    a_rev, _ = pr.impl_only([mk(c) for c in rev])
-    for c, x, y in zip(merged, a_fwd, a_rev):
-        if x != y:
-            chk.oracle_failure(f'IgnoreRules::check says {x} for {c[0]} when the ignore files are loaded in one order and {y} in the reverse order',
-                               {'path': c[0], 'rules': [(unhx(s2[1:]) if s2 != 'G' else 'G', l) for s2, l in c[1]], 'level': 'check'},
-                               {'forward': x, 'reverse': y}, signature={'stream': 'check-merged'})
-            break
+    globs = pats = contents = checks = merged = trees = twins = larges = shapes = []
+    reps, max_us = (25 if quick else 100), ((300 if quick else 120) if hooked else 0)
+    if impl is None:
+        chk.count('in-process streams skipped (harness not built)')
+    else:
+        # ---- S3a constants
+        consts = ['common', 'xvcignore', 'gitignore']
+        stream_simple(chk, pr, 'const', consts, lambda c: 'const\t' + c, lambda c, x: True)
 
-    large_rule_checks(chk, pr, 21 if quick else 280, 8 if quick else 12)
+        # ---- S3b glob / pattern / content / check streams
+        n_glob = 3000 if quick else 60000
+        n_pat = 2000 if quick else 40000
+        n_content = 400 if quick else 6000
+        n_check = 1500 if quick else 30000
+        rng = chk.rng
+        globs = [gen_glob_case(rng, chk) for _ in range(n_glob)]
+        # fixed shape table from DESIGN.md section 7 and the repository's own unit tests
+        globs += [('**/x', '/x'), ('**/x', '/b/x'), ('/a/**/x', '/ab/x'), ('/a/**/x', '/a/x'), ('**/d/**', '/d/f'), ('**/d/**', '/d/'), ('**/d/**', '/d'),
+                  ('/**/dir-0001/*', '/dir-0001/file-0001.bin'), ('/**/dir-00**/*/*.bin', '/dir-0001/file-0002.bin'), ('**/dir-00**/**', '/dir-0001/file-0002.bin'),
+                  ('/dir-0002/**/**', '/dir-0001/file-0001.bin'), ('/dir-0001/**/**/*.bin', '/dir-0001/file-0001.bin'), ('**/.xvc', '/a/.xvc'), ('**/.git', '/.git')]
+        st = stream_simple(chk, pr, 'glob', globs, lambda c: f'glob\t{hx(c[0])}\t{hx(c[1])}', lambda c, x: x == '1')
+        srcs = ['G', 'F', 'F' + hx('a'), 'F' + hx('a/b'), 'F' + hx('sub'), 'F' + hx('data/x/c'), 'F' + hx('d[1]'), 'F' + hx('{a}/q?'), 'F' + hx('p/st*r/b\\c'), 'F' + hx('!x]')]
+        pats = [(rng.choice(srcs), gen_line(rng, [], [], chk)) for _ in range(n_pat)]
+        pats += [(s, l) for s in srcs for l in ['myfile', '/myfile', 'myfile/', 'mydir/myfile', '/my/file.*', '/mydir/**.*', '!mydir/*/file', '!myfile/', '/', '//', 'a//', '**/', '!', '\\!x', 'x \\ ', ' x']]
+        stream_simple(chk, pr, 'pattern', pats, lambda c: f'pat\t{c[0]}\t{hx(c[1])}', lambda c, x: 'white=1' in x or 'dir=1' in x or 'some:' in x)
+        contents = [(rng.choice(srcs), gen_content(rng, [], [])) for _ in range(n_content)]
+        stream_simple(chk, pr, 'content', contents, lambda c: f'content\t{c[0]}\t{hx(c[1])}', lambda c, x: x.count(':') >= 2)
+        checks = []
+        for _ in range(n_check):
+            k = rng.randint(1, 6)
+            rules = [(rng.choice(srcs), gen_line(rng, [], [])) for _ in range(k)]
+            segs = [rng.choice(DIR_NAMES) for _ in range(rng.randint(0, 3))] + [rng.choice(FILE_NAMES + DIR_NAMES)]
+            pth = '/' + '/'.join(segs)
+            if rng.random() < 0.3:                      # a path below the directory of one of the rules (metacharacter names included) …
+                src = rng.choice(rules)[0]
+                if len(src) > 1:
+                    d0 = unhx(src[1:])
+                    if rng.random() < 0.3: d0 = ''.join(ch for ch in d0 if ch not in '[]{}\\!') .replace('*', 'a').replace('?', '1')   # … or below its plain look-alike
+                    pth = '/' + d0 + '/' + segs[-1]
+            checks.append((pth, rules))
+        stream_simple(chk, pr, 'check', checks, lambda c: 'check\t' + hx(c[0]) + ''.join(f'\t{s}\t{hx(l)}' for s, l in c[1]),
+                      lambda c, x: x != 'nomatch')
+        # rule sets built as the walkers build them (one add_patterns/merge_with per ignore file), the same line in several files;
+        # independent oracle: the verdict does not depend on the order in which the files were loaded
+        merged = gen_merged_checks(rng, 150 if quick else 3000, chk)
+        mk = lambda c: 'checkm\t' + hx(c[0]) + ''.join(f'\t{s2}\t{hx(l)}' for s2, l in c[1])
+        stream_simple(chk, pr, 'check-merged', merged, mk, lambda c, x: x != 'nomatch')
+        def by_file_reversed(rules):
+            groups = []
+            for r in rules:
+                if groups and groups[-1][0][0] == r[0]: groups[-1].append(r)
+                else: groups.append([r])
+            return [r for g in reversed(groups) for r in g]
+        rev = [(pth, by_file_reversed(rules)) for pth, rules in merged]
+        a_fwd, _ = pr.impl_only([mk(c) for c in merged])
+        a_rev, _ = pr.impl_only([mk(c) for c in rev])
+        for c, x, y in zip(merged, a_fwd, a_rev):
+            if x != y:
+                chk.oracle_failure(f'IgnoreRules::check says {x} for {c[0]} when the ignore files are loaded in one order and {y} in the reverse order',
+                                   {'path': c[0], 'rules': [(unhx(s2[1:]) if s2 != 'G' else 'G', l) for s2, l in c[1]], 'level': 'check'},
+                                   {'forward': x, 'reverse': y}, signature={'stream': 'check-merged'})
+                break
 
-    # ---- S3c/S4 trees: walkers vs model, oracle
-    n_trees = 24 if quick else 400
-    reps = 25 if quick else 100
-    max_us = (300 if quick else 120) if hooked else 0
-    st = chk.tie['streams'].setdefault('tree', {'cases': 0, 'disagreements': 0, 'oracle_failures': 0, 'parallel_repetitions': 0})
-    twins = [gen_twin_tree(rng, rel, cls, chk) for _ in range(1 if quick else 4) for rel in TWIN_RELATIONS for cls in TWIN_CLASSES]
-    larges = [gen_large(rng, draw_size(rng, k), chk)[1] for k in range(7 if quick else 70)]
-    shapes = gen_shape_trees(rng, 4 if quick else 60, chk)
-    trees = [list(t) for t in CORPUS] + shapes + larges + twins + [gen_tree(rng, chk) for _ in range(n_trees)]
-    # known-finding region K11 is kept out of the generated stream: a whitelist line that matches a .xvc/.git directory
-    for i, hit in enumerate(special_hits(pr, trees)):
-        if hit:
-            chk.count('tree:special-dir-dropped(K11 region)', len(hit))
-            trees[i] = normalise([e for e in trees[i] if not any(e[1] == q or e[1].startswith(q + '/') for q in hit)])
-    first_oracle, first_tie = None, None
-    for i, ents in enumerate(trees):
-        msgs, tie, obs = judge_tree(chk, pr, ents, reps, chk.seed * 100003 + i, max_us)
-        st['cases'] += 1; st['parallel_repetitions'] += reps; chk.evaluations += 1
-        nign = sum(1 for e in ents if e[0] == 'I')
-        hidden = len([e for e in ents if e[0] != 'I']) - len(obs.get('serial', []))
-        chk.count('tree:ignore-files', nign); chk.count('tree:entries', len(ents) - nign); chk.count('tree:hidden-entries', max(hidden, 0))
-        if nign >= 1 and hidden >= 1 and any(e[0] == 'I' and e[1] for e in ents):
-            chk.nontrivial.add(hashlib.sha1(enc_tree(ents).encode()).hexdigest())
-        if msgs:
-            st['oracle_failures'] += 1
-            if first_oracle is None: first_oracle = (i, ents, msgs)
-        if tie:
-            st['disagreements'] += 1
-            if first_tie is None: first_tie = (i, ents, tie)
-        if len(chk.samples) < 8 and nign >= 2 and hidden >= 2 and i % 5 == 0:
-            chk.samples.append({'stream': 'tree', 'tree': show_tree(ents), 'emitted (serial = parallel x%d = model)' % reps: obs.get('serial')})
-    if first_oracle:
-        i, ents, msgs = first_oracle
-        seed = chk.seed * 100003 + i
-        small = shrink_tree(ents, lambda c: bool(judge_tree(chk, pr, c, min(reps, 10), seed, max_us)[0]))
-        m2 = judge_tree(chk, pr, small, reps, seed, max_us)[0] or msgs
-        chk.oracle_failure(m2[0], {'tree': small, 'show': show_tree(small)}, {'all': m2, 'original_tree': show_tree(ents)}, signature=signature(pr, small, m2))
-    if first_tie:
-        i, ents, tie = first_tie
-        small = shrink_tree(ents, lambda c: bool(judge_tree(chk, pr, c, 3, 1, 0)[1]))
-        t2 = judge_tree(chk, pr, small, 3, 1, 0)[1] or tie
-        chk.disagreement('tree', show_tree(small), t2[0][1], t2[0][2], t2[0][0] + ' (paths hex-encoded)')
+        large_rule_checks(chk, pr, 21 if quick else 280, 8 if quick else 12)
 
-    # ---- known-finding replays (judged by the oracle alone)
-    for ents in KNOWN_REPLAYS:
-        msgs, _, obs = judge_tree(chk, pr, ents, 5, 1, max_us, full=False)
-        chk.count('known-replay')
-        if msgs:
-            chk.oracle_failure(msgs[0], {'tree': ents, 'show': show_tree(ents)}, {'all': msgs, 'emitted': obs.get('serial')}, signature=signature(pr, ents, msgs))
+        # ---- S3c/S4 trees: walkers vs model, oracle
+        n_trees = 14 if quick else 360
+        reps = 25 if quick else 100
+        max_us = (300 if quick else 120) if hooked else 0
+        st = chk.tie['streams'].setdefault('tree', {'cases': 0, 'disagreements': 0, 'oracle_failures': 0, 'parallel_repetitions': 0})
+        twins = [gen_twin_tree(rng, rel, cls, chk) for _ in range(1 if quick else 4) for rel in TWIN_RELATIONS for cls in TWIN_CLASSES]
+        larges = [gen_large(rng, draw_size(rng, chk.seed + k), chk)[1] for k in range(5 if quick else 70)]
+        shapes = gen_shape_trees(rng, 2 if quick else 60, chk)
+        exts = [gen_ext_tree(rng, EXT_CLASSES[(chk.seed + k) % 6], k % 2 == 1, chk) for k in range(6 if quick else 48)]
+        metas = [gen_meta_tree(rng, META_PAIRS[k % len(META_PAIRS)], EXT_CLASSES[(chk.seed + 2 * k) % 6], k % 3 == 2, chk) for k in range(7 if quick else 56)]
+        trees = [list(t) for t in CORPUS] + exts + metas + shapes + larges + twins + [gen_tree(rng, chk) for _ in range(n_trees)]
+        # known-finding region K11 is kept out of the generated stream: a whitelist line that matches a .xvc/.git directory
+        for i, hit in enumerate(special_hits(pr, trees)):
+            if hit:
+                chk.count('tree:special-dir-dropped(K11 region)', len(hit))
+                trees[i] = normalise([e for e in trees[i] if not any(e[1] == q or e[1].startswith(q + '/') for q in hit)])
+        first_oracle, first_tie = None, None
+        for i, ents in enumerate(trees):
+            msgs, tie, obs = judge_tree(chk, pr, ents, reps, chk.seed * 100003 + i, max_us)
+            st['cases'] += 1; st['parallel_repetitions'] += reps; chk.evaluations += 1
+            nign = sum(1 for e in ents if e[0] == 'I')
+            hidden = len([e for e in ents if e[0] != 'I']) - len(obs.get('serial', []))
+            chk.count('tree:ignore-files', nign); chk.count('tree:entries', len(ents) - nign); chk.count('tree:hidden-entries', max(hidden, 0))
+            if nign >= 1 and hidden >= 1 and any(e[0] == 'I' and e[1] for e in ents):
+                chk.nontrivial.add(hashlib.sha1(enc_tree(ents).encode()).hexdigest())
+            if msgs:
+                st['oracle_failures'] += 1
+                if first_oracle is None: first_oracle = (i, ents, msgs)
+            if tie:
+                st['disagreements'] += 1
+                if first_tie is None: first_tie = (i, ents, tie)
+            if len(chk.samples) < 8 and nign >= 2 and hidden >= 2 and i % 5 == 0:
+                chk.samples.append({'stream': 'tree', 'tree': show_tree(ents), 'emitted (serial = parallel x%d = model)' % reps: obs.get('serial')})
+        if first_oracle:
+            i, ents, msgs = first_oracle
+            seed = chk.seed * 100003 + i
+            small = shrink_tree(ents, lambda c: bool(judge_tree(chk, pr, c, min(reps, 10), seed, max_us)[0]))
+            m2 = judge_tree(chk, pr, small, reps, seed, max_us)[0] or msgs
+            chk.oracle_failure(m2[0], {'tree': small, 'show': show_tree(small)}, {'all': m2, 'original_tree': show_tree(ents)}, signature=signature(pr, small, m2))
+        if first_tie:
+            i, ents, tie = first_tie
+            small = shrink_tree(ents, lambda c: bool(judge_tree(chk, pr, c, 3, 1, 0)[1]))
+            t2 = judge_tree(chk, pr, small, 3, 1, 0)[1] or tie
+            chk.disagreement('tree', show_tree(small), t2[0][1], t2[0][2], t2[0][0] + ' (paths hex-encoded)')
+
+        # ---- known-finding replays (judged by the oracle alone)
+        for ents in KNOWN_REPLAYS:
+            msgs, _, obs = judge_tree(chk, pr, ents, 5, 1, max_us, full=False)
+            chk.count('known-replay')
+            if msgs:
+                chk.oracle_failure(msgs[0], {'tree': ents, 'show': show_tree(ents)}, {'all': msgs, 'emitted': obs.get('serial')}, signature=signature(pr, ents, msgs))
 
     # ---- binary level
-    n_bin = 2 if quick else 40
+    n_bin = 1 if quick else 36
     breps = 6 if quick else 20
     bst = chk.tie['streams'].setdefault('binary', {'cases': 0, 'disagreements': 0, 'oracle_failures': 0})
-    pick = [(TWIN_RELATIONS[(chk.seed + k) % 3], TWIN_CLASSES[(chk.seed + k) % len(TWIN_CLASSES)]) for k in range(4)] if quick else \
+    pick = [(TWIN_RELATIONS[(chk.seed + k) % 3], TWIN_CLASSES[(chk.seed + k) % len(TWIN_CLASSES)]) for k in range(2)] if quick else \
            [(r, c) for r in TWIN_RELATIONS for c in TWIN_CLASSES]
-    blarge = [gen_large(rng, draw_size(rng, chk.seed + 4 + k), chk)[1] for k in range(2 if quick else 14)]
+    blarge = [gen_large(rng, draw_size(rng, chk.seed + 4 + k), chk)[1] for k in range(1 if quick else 14)]
     bshapes = [seed3_scenario(k2, d2) for k2, d2 in ([('abs-outside', ''), ('chain', 'data')] if quick else [(k3, d3) for k3 in LOADING_SHAPES + NONLOADING_SHAPES for d3 in ('data', '')])]
-    btrees = [list(CORPUS[0]), list(CORPUS[1]), list(CORPUS[2]), list(CORPUS[3])] + blarge + bshapes + [gen_twin_tree(rng, r, c, chk) for r, c in pick] + \
-             [gen_tree(rng, chk, special=False) for _ in range(n_bin)]
-    for i, ents in enumerate(btrees):
-        msgs, tie = binary_case(chk, pr, xvc, ents, i, 24 if i == 1 else (10 if i in (4, 5) else breps), hooked)
+    bext = [gen_ext_tree(rng, EXT_CLASSES[(chk.seed + 5 * k + 1) % 6], k % 2 == 1, chk) for k in range(2 if quick else 12)]
+    bmeta = [gen_meta_tree(rng, META_PAIRS[(chk.seed + k) % len(META_PAIRS)], EXT_CLASSES[(chk.seed + 3 * k) % 6], k % 2 == 1, chk) for k in range(2 if quick else 14)]
+    # (tree, repetitions of `xvc file list`, confinement twins?) — corpus: F32, C09-4, C09-3, C09-2 (24 listings), F8, …
+    bcases = [(list(CORPUS[0]), breps, True), (list(CORPUS[1]), 12, True), (list(CORPUS[2]), breps, False), (list(CORPUS[3]), 24, False),
+              (list(CORPUS[4]), breps, False), (list(CORPUS[5]), breps, False)]
+    bcases += [(t, breps, True) for t in bext + bmeta] + [(t, 10, False) for t in blarge] + [(t, breps, False) for t in bshapes]
+    bcases += [(gen_twin_tree(rng, r, c, chk), breps, False) for r, c in pick] + [(gen_tree(rng, chk, special=False), breps, False) for _ in range(n_bin)]
+    for i, (ents, nrep, confine) in enumerate(bcases):
+        msgs, tie = binary_case(chk, pr, xvc, ents, i, nrep, hooked, confine=confine)
         bst['cases'] += 1; chk.evaluations += 1
         if msgs:
             bst['oracle_failures'] += 1
@@ -1075,9 +1211,9 @@ def run(chk: Check):
         f'{len(checks)} IgnoreRules::check calls on rule sets of 1-6 lines; {len(merged)} checks on rule sets merged file by file (add_patterns) with the same line in the ignore files of two directories, forwards and in reverse load order; {len(twins)} twin trees (LARGE rule sets first: the seeded scenario C09-2 and {len(larges)} generated trees whose accumulated rule set has a size drawn around 8/16/31/32/33/64/128 with paths matched by ignore and whitelist lines at once; then the identical line — name, *.ext, dir/, !negation, a/b, /anchored — in the ignore files of sibling, cousin and parent+child directories) + {len(trees) - len(twins)} real trees (<= 4 levels, <= 20 entries, ignore files at random directories, '
         f'.xvc/.git directories, symlinks) each walked by walk_serial, by walk_parallel {reps}x' + (' with seeded hook delays' if hooked else '') +
         ', again after re-creating the entries in a shuffled order, again without the ignore file of up to 3 directories (scoping), '
-        f'plus build_ignore_patterns+check on up to 12 paths; {len(btrees)} scratch repositories driven by the rebuilt xvc binary (file list x{breps}, glob targets, check-ignore, file track dir/; the first ones are twin trees). '
+        f'plus build_ignore_patterns+check on up to 12 paths; {len(bcases)} scratch repositories (corpus first: F32, C09-4 with confinement twin repositories, C09-3, C09-2; name-extension and metacharacter-directory trees) driven by the rebuilt xvc binary (file list x{breps}, glob targets, check-ignore, file track dir/; the first ones are twin trees). '
         'Non-trivial = a glob that matched / a pattern with a non-default field / a check with a verdict / a tree with a nested ignore file that hides something; distinct by input.')
-    chk.extra['programs'] = len(trees) + len(btrees)
+    chk.extra['programs'] = len(trees) + len(bcases)
     return chk.finish()
 
 
